@@ -62,15 +62,15 @@ func (eng) CoqRequire(mode string) string {
 func (eng) CoqCaseType(mode string) string { return "Check_align.case" }
 func (eng) CoqRun(mode string) string      { return "Check_align.run" }
 func (eng) Rule(mode string) string {
-	return "1..4 senders, 1..5 consecutive checkpoints, batch size 0(=1)..10, batch time-out on/off; every sender delivers HandleEventBatch calls through the real rpc adapters (rpc.OperatorEmbeddedClient, or rpc.OperatorConnectHandler with a connect.Request), one outstanding call per sender, batch boundaries drawn in four styles (single-event calls, short, long, cut at barriers: barrier first / in the middle / last, watermark or event right after a barrier in the same call); per-sender scripts of keyed events (unique ids, 3 subject keys, optional timer), per-sender increasing watermarks, barriers with increasing ids, occasional wrong-id barrier (alone in its call) while a checkpoint is in progress; schedules drawn from the enabled actions (gate/wake/handle/fire/timeout) with five biases (uniform, eager senders, sequential, one laggard sender, late wake-ups) plus probe handles of senders that must be parked, some cut short mid-checkpoint. Non-trivial: at least one checkpoint reported and (a sender parked, or entries pending in the batch when the last barrier arrived, or an event passed the gate before a checkpoint started and was handled during it); distinct by hash of parameters and ops."
+	return "1..4 senders, 1..5 consecutive checkpoints, batch size 0(=1)..10, batch time-out on/off; every sender delivers HandleEventBatch calls through the real rpc adapters (rpc.OperatorEmbeddedClient, or rpc.OperatorConnectHandler with a connect.Request), one outstanding call per sender, batch boundaries drawn in four styles (single-event calls, short, long, cut at barriers: barrier first / in the middle / last, watermark or event right after a barrier in the same call); per-sender scripts of keyed events (unique ids, 3 subject keys, optional timer), per-sender increasing watermarks, barriers with increasing ids, occasional wrong-id barrier (alone in its call) while a checkpoint is in progress; in 40 % of the multi-runner cases some (never all) runners send SourceComplete at a random point and go on with watermarks and barriers only; in half of the cases the context of a parked call is cancelled (op cancel) while another runner's barrier is outstanding; schedules drawn from the enabled actions (gate/wake/handle/fire/timeout) with five biases (uniform, eager senders, sequential, one laggard sender, late wake-ups) plus probe handles of senders that must be parked, some cut short mid-checkpoint. Non-trivial: at least one checkpoint reported and (a sender parked, or entries pending in the batch when the last barrier arrived, or an event passed the gate before a checkpoint started and was handled during it); distinct by hash of parameters and ops."
 }
 
 // ---------- case format ----------
 
 type op struct {
-	Act  string `json:"act"` // gate | wake | handle | fire | timeout
+	Act  string `json:"act"` // gate | wake | handle | fire | timeout | cancel
 	S    int    `json:"s"`
-	Kind string `json:"kind,omitempty"` // ev | wm | bar (gate only)
+	Kind string `json:"kind,omitempty"` // ev | wm | bar | done (gate only)
 	ID   uint64 `json:"id,omitempty"`
 	Key  uint64 `json:"key,omitempty"`
 	Tm   uint64 `json:"tm,omitempty"`
@@ -96,6 +96,8 @@ func (o op) event() *workerpb.Event {
 		return &workerpb.Event{Event: &workerpb.Event_Watermark{Watermark: &workerpb.Watermark{Timestamp: &timestamppb.Timestamp{Seconds: int64(o.T)}}}}
 	case "bar":
 		return &workerpb.Event{Event: &workerpb.Event_CheckpointBarrier{CheckpointBarrier: &workerpb.CheckpointBarrier{CheckpointId: o.Cid}}}
+	case "done":
+		return &workerpb.Event{Event: &workerpb.Event_SourceComplete{SourceComplete: &workerpb.SourceCompleteEvent{}}}
 	}
 	return nil
 }
@@ -106,6 +108,8 @@ func (o op) itemCoq() string {
 		return fmt.Sprintf("(IEv %d %d %d)", o.ID, o.Key, o.Tm)
 	case "wm":
 		return fmt.Sprintf("(IWm %d)", o.T)
+	case "done":
+		return "IDone"
 	default:
 		return fmt.Sprintf("(IBar %d)", o.Cid)
 	}
@@ -184,6 +188,28 @@ func genCase(r *hx.Rand, idx int, tier string) *hx.Case {
 			}
 		}
 	}
+	// SourceComplete: some runners (never all) finish reading at some point and go on sending watermarks and barriers only
+	if n >= 2 && r.Chance(2, 5) {
+		k := r.Range(1, n-1)
+		perm := make([]int, n)
+		for i := range perm {
+			perm[i] = i
+		}
+		hx.Shuffle(r, perm)
+		for _, sd := range perm[:k] {
+			p := r.Intn(len(scripts[sd]) + 1)
+			var out []gItem
+			out = append(out, scripts[sd][:p]...)
+			out = append(out, gItem{o: op{Act: "gate", S: sd, Kind: "done"}})
+			for _, it := range scripts[sd][p:] {
+				if it.o.Kind != "ev" {
+					out = append(out, it)
+				}
+			}
+			scripts[sd] = out
+		}
+	}
+	cancels := r.Chance(1, 2)
 	// mirror
 	const (
 		mIdle = iota
@@ -241,6 +267,10 @@ func genCase(r *hx.Rand, idx int, tier string) *hx.Case {
 					// probe: "handle" of a sender that must still be parked; skipped by the executor unless the
 					// implementation let the sender through (then its post-barrier event runs before the checkpoint)
 					cs = append(cs, cand{"probe", s, 2})
+					if cancels {
+						// the parked call's context is cancelled (RPC deadline, client gone); the sender must stay parked
+						cs = append(cs, cand{"cancel", s, 1})
+					}
 				}
 			case mPassed:
 				w := 4
@@ -321,6 +351,8 @@ func genCase(r *hx.Rand, idx int, tier string) *hx.Case {
 			gateNext(s, it)
 		case "probe":
 			emit(op{Act: "handle", S: s})
+		case "cancel":
+			emit(op{Act: "cancel", S: s})
 		case "wake":
 			emit(op{Act: "wake", S: s})
 			mode[s] = mPassed
@@ -603,10 +635,11 @@ type sender struct {
 	ret     chan error
 	sig     chan int
 	release chan struct{}
-	mode    int  // 0 idle, 1 parked, 2 passed
-	cur     op   // the item in flight
-	queue   []op // the events of the current HandleEventBatch call that have not reached the gate yet
-	parkCk  int  // completions seen when it parked
+	mode    int                                // 0 idle, 1 parked, 2 passed
+	cur     op                                 // the item in flight
+	queue   []op                               // the events of the current HandleEventBatch call that have not reached the gate yet
+	cancel  atomic.Pointer[context.CancelFunc] // cancels the context of the outstanding call
+	parkCk  int                                // completions seen when it parked
 }
 
 var (
@@ -706,13 +739,17 @@ func (eng) Execute(mode string, c *hx.Case) (*hx.Result, error) {
 			for {
 				select {
 				case batch := <-s.cmd:
-					// the production path of a source runner: proto.Operator.HandleEventBatch through the rpc adapters
+					// the production path of a source runner: proto.Operator.HandleEventBatch through the rpc adapters,
+					// every call with its own context (op "cancel" cancels it while the sender is parked)
+					cctx, cancel := context.WithCancel(ctx)
+					s.cancel.Store(&cancel)
 					if connectH != nil {
-						_, err := connectH.HandleEventBatch(ctx, connect.NewRequest(&workerpb.HandleEventBatchRequest{SenderId: s.id, Events: batch}))
+						_, err := connectH.HandleEventBatch(cctx, connect.NewRequest(&workerpb.HandleEventBatchRequest{SenderId: s.id, Events: batch}))
 						s.ret <- err
 					} else {
-						s.ret <- rpc.NewOperatorEmbeddedClient(rpc.NewOperatorEmbeddedClientParams{Operator: opr, SenderID: s.id, Host: "h", ID: "op0"}).HandleEventBatch(ctx, batch)
+						s.ret <- rpc.NewOperatorEmbeddedClient(rpc.NewOperatorEmbeddedClientParams{Operator: opr, SenderID: s.id, Host: "h", ID: "op0"}).HandleEventBatch(cctx, batch)
 					}
+					cancel()
 				case <-quit:
 					return
 				}
@@ -739,10 +776,26 @@ func (eng) Execute(mode string, c *hx.Case) (*hx.Result, error) {
 	}
 	evTerm := func() (string, []any) { return evSplit(rec.take()) }
 	nCk, nParkAtCk, nPendAtCk, nInflightAtCk, nWrong, nTimeoutFlush, nStale, nGate := 0, 0, 0, 0, 0, 0, 0, 0
+	doneSent := make([]bool, n) // SourceComplete delivered by the sender
+	nDone := 0
 	ckStartedAtGate := make([]bool, n) // whether a checkpoint was in progress when the sender passed its gate
 	inProgress := false
 	lastWasBarrier := false
 	aborted := false
+	// a parked sender came through although no checkpoint completion was reported since it parked
+	earlyWake := func(i int) {
+		snd[i].mode = 2
+		obs = append(obs, fmt.Sprintf("OEarlyWake %d%%nat", i))
+		jobs = append(jobs, map[string]any{"early_wake": i})
+		tags["EARLY-WAKE"] = true
+	}
+	// a parked call returned without its event ever passing the gate (the event is given up, with the rest of its batch)
+	abandoned := func(i int, err error) {
+		snd[i].mode, snd[i].queue = 0, nil
+		obs = append(obs, fmt.Sprintf("OAbandon %d%%nat", i))
+		jobs = append(jobs, map[string]any{"abandoned": i, "err": fmt.Sprint(err)})
+		tags["ABANDONED-PARKED-CALL"] = true
+	}
 	// sender si signalled park / pass for the next event of its batch
 	gated := func(si int, sg int) {
 		s := snd[si]
@@ -783,6 +836,9 @@ func (eng) Execute(mode string, c *hx.Case) (*hx.Result, error) {
 			completed = completed || e.ck
 		}
 		if completed {
+			if nDone > 0 {
+				tags["checkpoint-after-source-complete"] = true
+			}
 			nCk++
 			inProgress = false
 			for _, x := range snd {
@@ -826,10 +882,9 @@ func (eng) Execute(mode string, c *hx.Case) (*hx.Result, error) {
 			if s.mode == 1 && s.parkCk == rec.completions() {
 				select {
 				case <-s.sig:
-					s.mode = 2
-					obs = append(obs, fmt.Sprintf("OEarlyWake %d%%nat", i))
-					jobs = append(jobs, map[string]any{"early_wake": i})
-					tags["EARLY-WAKE"] = true
+					earlyWake(i)
+				case err := <-s.ret:
+					abandoned(i, err)
 				default:
 				}
 			}
@@ -842,6 +897,24 @@ func (eng) Execute(mode string, c *hx.Case) (*hx.Result, error) {
 				continue
 			}
 			its := o.items()
+			{ // at least one runner stays active (the operator stops itself when the last one completes)
+				var keep []op
+				for _, it := range its {
+					if it.Kind == "done" {
+						if doneSent[o.S] || nDone >= n-1 {
+							continue
+						}
+						doneSent[o.S] = true
+						nDone++
+						tags["source-complete"] = true
+					}
+					keep = append(keep, it)
+				}
+				its = keep
+			}
+			if len(its) == 0 {
+				continue
+			}
 			var batch []*workerpb.Event
 			for _, it := range its {
 				if ev := it.event(); ev != nil {
@@ -939,6 +1012,25 @@ func (eng) Execute(mode string, c *hx.Case) (*hx.Result, error) {
 			case <-time.After(watchdog):
 				stuck(3, o)
 				aborted = true
+			}
+		case "cancel":
+			// cancel the context of a parked call. The sender must stay parked: the grace period is not a
+			// synchronisation, it only gives an implementation that lets the sender go the time to show it.
+			if s.mode != 1 || s.parkCk < rec.completions() {
+				continue
+			}
+			if cf := s.cancel.Load(); cf != nil {
+				(*cf)()
+			}
+			obs = append(obs, fmt.Sprintf("OCancel %d%%nat", o.S))
+			jobs = append(jobs, map[string]any{"cancel": o.S})
+			tags["cancel-parked"] = true
+			select {
+			case <-s.sig:
+				earlyWake(o.S)
+			case err := <-s.ret:
+				abandoned(o.S, err)
+			case <-time.After(3 * time.Millisecond):
 			}
 		case "fire":
 			if tm.fire() {
